@@ -29,7 +29,9 @@ fn show_err(e: &FluentError) -> String {
 }
 
 /// format the single-placeable pattern `probe = { <expr> }` against the bundle
-fn probe(bundle: &FluentBundle<FluentResource>, expr: &str) -> Option<(String, Vec<FluentError>)> {
+type Shared = std::rc::Rc<FluentResource>;
+
+fn probe(bundle: &FluentBundle<Shared>, expr: &str) -> Option<(String, Vec<FluentError>)> {
     let res = FluentResource::try_new(format!("probe = {{ {} }}\n", expr)).ok()?;
     let pat = match res.get_entry(0)? {
         ast::Entry::Message(m) => m.value.as_ref()?,
@@ -41,15 +43,22 @@ fn probe(bundle: &FluentBundle<FluentResource>, expr: &str) -> Option<(String, V
 }
 
 fn run(payload: &str) -> String {
-    let mut bundle: FluentBundle<FluentResource> = FluentBundle::new(vec!["en-US".parse().unwrap()]);
+    // resources are held as `Rc<FluentResource>`: `add`/`addov` hand over a fresh handle every time,
+    // `addh`/`addovh` hand over THE SAME handle for the same description (kept in `handles`)
+    let mut bundle: FluentBundle<Shared> = FluentBundle::new(vec!["en-US".parse().unwrap()]);
     bundle.set_use_isolating(false);
+    let mut handles: std::collections::HashMap<String, Shared> = std::collections::HashMap::new();
     let mut outs: Vec<String> = vec![];
     for (idx, op) in payload.split(';').enumerate() {
         let p: Vec<&str> = op.split(':').collect();
         let o: String = match p.as_slice() {
-            ["add", r] => match render_res(r) {
+            ["add", r] | ["addh", r] => match render_res(r) {
                 Some(src) => {
-                    let res = parse_keep(src);
+                    let res: Shared = if p[0] == "addh" {
+                        handles.entry(r.to_string()).or_insert_with(|| Shared::new(parse_keep(src))).clone()
+                    } else {
+                        Shared::new(parse_keep(src))
+                    };
                     let shape = res_shape(&res);
                     match bundle.add_resource(res) {
                         Ok(()) => format!("{}|ok", shape),
@@ -65,9 +74,13 @@ fn run(payload: &str) -> String {
                 }
                 None => "bad-op".into(),
             },
-            ["addov", r] => match render_res(r) {
+            ["addov", r] | ["addovh", r] => match render_res(r) {
                 Some(src) => {
-                    let res = parse_keep(src);
+                    let res: Shared = if p[0] == "addovh" {
+                        handles.entry(r.to_string()).or_insert_with(|| Shared::new(parse_keep(src))).clone()
+                    } else {
+                        Shared::new(parse_keep(src))
+                    };
                     let shape = res_shape(&res);
                     bundle.add_resource_overriding(res);
                     format!("{}|ok", shape)
